@@ -248,6 +248,14 @@ def check_property(pid, tier, seed):
     for fname in plan.get("finite", []):
         mod = importlib.import_module("pyvc.finite")
         finite_results.extend(getattr(mod, fname)(REPO))
+    # bounded stand-ins for functions outside the subset (labelled bounded, never counted as proved)
+    bounded_runs = []
+    for fname in plan.get("bounded", []):
+        mod = importlib.import_module("pyvc.finite")
+        res = getattr(mod, fname)(REPO)
+        target, bound = mod.BOUNDS[fname]
+        bounded_runs.append({"function": target, "bound": bound, "cases": sum(r.get("cases", 0) for r in res),
+                             "failures": [r for r in res if not r["ok"]]})
     # ---- discharge -------------------------------------------------------------------------------
     smt_dir = os.path.join(OUT, "smt", pid)
     known_all = [k for k in load_known() if k.get("property") == pid and k.get("status", "known") == "known"]
@@ -359,6 +367,12 @@ def check_property(pid, tier, seed):
         vac.append({"behaviour": "%s[%s]" % tb, "inputs_satisfying_requires": nr.get("satisfying", 0)})
         if not nr.get("error") and nr.get("satisfying", 0) == 0:
             errors.append("vacuity: no native input satisfies the preconditions of %s[%s]" % tb)
+    for br in bounded_runs:
+        for f in br["failures"]:
+            if f["id"].endswith("all-cases"):
+                continue
+            path = write_replay(pid, f["id"], br["function"], "", {"bounded": f, "bound": br["bound"]})
+            violations.append(("%s (%s)" % (f["id"], f["detail"]), path, True))
     # failing enumerated cases: listed under a recorded finding, or violations (the enumeration itself is the failing input)
     for f in [f for f in finite_results if not f["ok"]]:
         kf = match_known(known, f["id"], None)
@@ -427,7 +441,9 @@ def check_property(pid, tier, seed):
             "behaviours_left_to_the_thorough_tier": deferred_behaviours,
             "lemmas_used": sorted(ex.used_lemmas),
             "composition_hypotheses": comp_used,
-            "bounded_stand_ins": bounded,
+            "bounded_stand_ins": bounded + [{"function": b["function"], "bound": b["bound"], "cases_run": b["cases"],
+                                             "failures": len([f for f in b["failures"] if not f["id"].endswith("all-cases")]),
+                                             "status": "BOUNDED - not a proof"} for b in bounded_runs],
             "native_runs": [{"behaviour": "%s[%s]" % (r.get("target"), r.get("behaviour")), "inputs": r.get("tried"),
                              "satisfying_requires": r.get("satisfying"), "failures": r.get("n_failures", 0)} for r in nat],
             "vacuity_guards": {"requires_satisfied_natively": vac, "canaries": n_canaries,
